@@ -486,4 +486,9 @@ def run(ctx, chk):
     from props.c19 import check_gate
     L = int(prog.values["CBOR_MAX_STACK_SIZE"])
     check_gate(chk, prog, eff, L, "default(L=%d)" % L, rule="C02.gate")
+    chk.rule("C02.no-silent-drop", "every decoded head becomes a node of the tree or stops the load: each path of each builder callback hands "
+                                   "its item off or raises an error flag (a chunk boundary, an empty chunk, a null is never skipped); shared "
+                                   "with C05")
+    from props.c05 import check_no_silent_drop
+    check_no_silent_drop(chk, "C02.no-silent-drop", prog, eff)
     chk.exhaustive = True
